@@ -34,7 +34,10 @@ def run_check(prop, repo_dir, seed, extra=()):
     env['VERIF_REPO'] = repo_dir
     env['VERIF_SEED'] = str(seed)
     t0 = time.time()
-    p = subprocess.run([sys.executable, os.path.join(HERE, 'run_check.py'), prop, '--tier', 'quick'] + list(extra),
+    tier = os.environ.get('MUTANT_TIER', 'quick')
+    if os.environ.get('MUTANT_ONLY'):
+        extra = list(extra) + ['--only', os.environ['MUTANT_ONLY']]
+    p = subprocess.run([sys.executable, os.path.join(HERE, 'run_check.py'), prop, '--tier', tier] + list(extra),
                        env=env, stdout=subprocess.PIPE, stderr=subprocess.STDOUT, text=True)
     lines = [ln for ln in p.stdout.splitlines() if ln.startswith(('VIOLATION', '  sub-property', 'HARNESS'))]
     return p.returncode, time.time() - t0, lines
